@@ -760,6 +760,21 @@ def loop_has_progress(c, f, h, body):
                 if d is not None and d.op in ('add', 'sub') and d.ops[1].kind == 'int' and d.ops[1].ival != 0:
                     if all(b in dom[t] for t in tails):
                         return 'stored counter advanced by a constant on every cycle'
+    # (4) a cursor kept in a stack slot (its address is handed to a helper): on every explored path back to the
+    #     header the slot holds its old value plus a non-empty sum of steps
+    from .. import loops as _loops
+    from .c11 import flatten
+    slots = _loops.slot_vars(f)
+    if slots:
+        ex = sym.Explorer(c.modules, max_visits=2, mod_sets=c.mod_sets, max_paths=20000)
+        try:
+            paths = [p for p in _loops.iterate(ex, f, h) if p.end == 'stop']
+        except sym.AnalysisIncomplete:
+            paths = []
+        for n in sorted(set(slots.values())):
+            if paths and all((lambda t: t is not None and len(t) > 0 and any(not sym.is_const(x) or x[1] > 0 for x in t))(flatten(p.next.get(n, ('p', n)), ('p', n)))
+                             for p in paths):
+                return 'the cursor %s (kept in a stack slot) is advanced on all %d explored paths back to the loop head' % (n, len(paths))
     return None
 
 
